@@ -355,6 +355,16 @@ Qed.
 (* 4. one interpreter step is monotone                                 *)
 (* ================================================================== *)
 
+(* a selector as table name consults the registered CTEs by name only *)
+Lemma sel_visible_ext c1 c2 text :
+  (forall k, cte_lookup k c1 = cte_lookup k c2) -> sel_visible c1 text = sel_visible c2 text.
+Proof.
+  intros H. unfold sel_visible. f_equal.
+  destruct (SelToken.parse_all text) as [all| | |]; try reflexivity.
+  destruct (sel_head all) as [names|]; [|reflexivity].
+  induction names as [|k names IH]; [reflexivity|]. cbn [forallb]. rewrite H, IH. reflexivity.
+Qed.
+
 Section StepLe.
   Variables rec1 rec2 : qctx -> job -> res value.
   Variable call : string -> string -> list value -> row -> res raw.
@@ -367,7 +377,7 @@ Section StepLe.
   Lemma build_from_le f : forall a b, ctx_equiv a b ->
     le_res (build_from rec1 join a f) (build_from rec2 join b f).
   Proof.
-    induction f as [|path alias|fn path alias|q alias|jt st l IHl r IHr on]; intros a b Hab;
+    induction f as [|path alias|fn path alias|sl alias|q alias|jt st l IHl r IHr on]; intros a b Hab;
       cbn [build_from].
     - apply le_res_refl.
     - destruct path as [|k rest]; [apply le_res_refl|].
@@ -388,6 +398,7 @@ Section StepLe.
       destruct (up_read a path) as [h1|], (up_read b path) as [h2|];
         cbn [hit_equiv] in Hh; try contradiction; [apply le_res_refl|].
       rewrite (ce_data _ _ Hab). apply le_res_refl.
+    - rewrite (sel_visible_ext _ _ _ (ce_ctes _ _ Hab)), (ce_data _ _ Hab). apply le_res_refl.
     - apply le_res_bind; [apply Hrec; exact Hab|]. intros; apply le_res_refl.
     - apply le_res_bind; [apply IHl; exact Hab|]. intros lf.
       apply le_res_bind; [apply IHr; exact Hab|]. intros rf.
